@@ -91,6 +91,8 @@ def gen_instance(rng):
             continue
         inst = {'pth': pth, 'nu': nu, 'A': A, 'B': B, 'C': C, 'ds': ds, 'ps': ps, 'n': N_TRIALS,
                 'seed': int(rng.integers(0, 2 ** 31))}
+        if rng.random() < 0.5:      # unequal trial counts per distance (fewer for the larger codes)
+            inst['n_by_d'] = {str(d): int(N_TRIALS * 2 // (1 + j)) for j, d in enumerate(ds)}
         if in_box(inst):
             return inst
 
@@ -113,6 +115,10 @@ CORPUS = [
      'ps': [0.07, 0.08, 0.09, 0.1, 0.11, 0.12, 0.13], 'n': N_TRIALS, 'seed': 1},
     {'pth': 0.161, 'nu': 1.27, 'A': 0.377, 'B': 0.39, 'C': 0.15, 'ds': [3, 9, 11, 12],
      'ps': [0.125305, 0.133, 0.141, 0.149, 0.157, 0.165, 0.173, 0.181, 0.189, 0.196], 'n': N_TRIALS, 'seed': 2},
+    # fewer trials for the larger (slower) distances, as real sweeps have them
+    {'pth': 0.1, 'nu': 1.0, 'A': 0.3, 'B': 0.8, 'C': 0.5, 'ds': [4, 6, 8],
+     'ps': [0.07, 0.08, 0.09, 0.1, 0.11, 0.12, 0.13], 'n': N_TRIALS, 'n_by_d': {'4': 40000, '6': 20000, '8': 10000},
+     'seed': 4},
 ]
 # regression (182c096): the first fit ends in a local minimum with p_th < 0; panqec used to report the mid-range
 # value as fss_params[0] because get_fit_params overwrote the caller's array
@@ -139,8 +145,13 @@ def record(d, p, n, nf, fail_first=True):
             'inputs': make_inputs(d, p)}
 
 
+def n_of(inst, d):
+    """trials per data point of distance d (instances may plant different numbers of trials per distance)"""
+    return int(inst.get('n_by_d', {}).get(str(d), inst['n']))
+
+
 def planted_counts(inst):
-    return {(d, p): int(round(ansatz(inst, p, d) * inst['n'])) for d in inst['ds'] for p in inst['ps']}
+    return {(d, p): int(round(ansatz(inst, p, d) * n_of(inst, d))) for d in inst['ds'] for p in inst['ps']}
 
 
 def build_files(inst, root, variant):
@@ -149,12 +160,12 @@ def build_files(inst, root, variant):
     import numpy as np
     rng = np.random.default_rng(inst['seed'] + 17 * variant)
     counts = planted_counts(inst)
-    n = inst['n']
     pts = list(counts)
     order = [pts[int(i)] for i in rng.permutation(len(pts))]
     os.makedirs(root, exist_ok=True)
     if variant == 0:
         for j, (d, p) in enumerate(order):
+            n = n_of(inst, d)
             sub = os.path.join(root, f'd{d}' if j % 2 else '')
             os.makedirs(sub, exist_ok=True)
             with gzip.open(os.path.join(sub, f'r{j}.json.gz'), 'wb') as f:
@@ -163,6 +174,7 @@ def build_files(inst, root, variant):
         lists = [[], []]
         for j, (d, p) in enumerate(order):
             nf = counts[(d, p)]
+            n = n_of(inst, d)
             n1 = int(rng.integers(1, n))
             nf1 = min(nf, int(rng.integers(0, n1 + 1)))
             nf1 = max(nf1, nf - (n - n1))
@@ -328,7 +340,7 @@ STATUS_KINDS = ['success', 'nan-param', 'nan-key', 'zero-ci', 'near-zero-ci', 'z
 def instances(ctx, salt, n_quick, n_thorough):
     rng = ctx.np_rng(salt)
     n = n_thorough if ctx.thorough else n_quick
-    return CORPUS[:1 if not ctx.thorough else 2] + [gen_instance(rng) for _ in range(n)]
+    return (CORPUS if ctx.thorough else [CORPUS[0], CORPUS[2]]) + [gen_instance(rng) for _ in range(n)]
 
 
 def correspondence(ctx):
@@ -483,9 +495,9 @@ def check_case(case):
                                               f"(spread {sd_a:.3g})"))
             counts = planted_counts(inst)
             for (d, p, f, nt, nf) in out['points']:
-                if nt != inst['n'] or nf != counts[(d, p)]:
+                if nt != n_of(inst, d) or nf != counts[(d, p)]:
                     checks.append(('pooled-counts', f'd={d} p={p}: n_trials={nt} n_fail={nf}, planted '
-                                                    f"{inst['n']} / {counts[(d, p)]}"))
+                                                    f"{n_of(inst, d)} / {counts[(d, p)]}"))
                     break
             out2 = run_thresholds(inst, 1) if case.get('order', True) else out
             if 'error' in out2:
